@@ -5,6 +5,12 @@
 //!
 //!   miri_scn <seed> <first-program> <programs>            threads first (so that first uses of
 //!                                                         lazily initialised state are contended)
+//!   miri_scn <seed> <first-program> <programs> pipeline   only S1 pipelines (statement built on
+//!                                                         one thread, mutated on a second, rendered
+//!                                                         on a third; never two threads at once, so
+//!                                                         deterministic on real threads: run natively
+//!                                                         to reach per-thread state, which shuttle's
+//!                                                         single OS thread cannot show)
 //!   miri_scn <seed> <first-program> <programs> baseline   the same programs without any thread
 //!                                                         (fresh process): a program that fails
 //!                                                         here is not a thread-safety matter
@@ -18,11 +24,17 @@ fn main() {
     let seed: u64 = a.get(1).and_then(|s| s.parse().ok()).unwrap_or(20240601);
     let first: u64 = a.get(2).and_then(|s| s.parse().ok()).unwrap_or(0);
     let n: u64 = a.get(3).and_then(|s| s.parse().ok()).unwrap_or(2);
-    let baseline = a.get(4).map(|s| s == "baseline").unwrap_or(false);
+    let mode = a.get(4).cloned().unwrap_or_default();
+    let baseline = mode == "baseline" || mode == "pipeline-baseline";
+    let pipeline = mode.starts_with("pipeline");
     let mut bad = 0;
     for i in first..first + n {
         let mut r = Rng::new(run_seed(seed, i));
-        let sc = gen_scenario(&mut r, true);
+        let sc = if pipeline {
+            gen_scenario_kind(&mut r, false, Some(0))
+        } else {
+            gen_scenario(&mut r, true)
+        };
         if a.get(4).map(|s| s == "dump").unwrap_or(false) {
             println!("SCENARIO {} {}", i, serde_json::to_string(&sc).unwrap());
             continue;
@@ -33,7 +45,9 @@ fn main() {
             run_scenario::<StdRt>(&sc)
         };
         if f.is_empty() {
-            println!("program {} ({}) ok", i, sc.kind());
+            if !pipeline {
+                println!("program {} ({}) ok", i, sc.kind());
+            }
         } else {
             bad += 1;
             println!("program {} ({}) FINDINGS {:?}", i, sc.kind(), f);
